@@ -86,7 +86,7 @@ def judge(ctx, res, runs):
 def cases_for(ctx):
     rng = ctx.rng
     out = []
-    for _ in range(ctx.budget(700, 5000)):
+    for _ in range(ctx.budget(1500, 8000)):
         out.append(solvers.plain_case(ctx, rng))
     if ctx.thorough or ctx.deep:
         grid = [
